@@ -127,6 +127,8 @@ pub struct Ctx {
     pub discover: bool,
     pub strict_replay: bool,
     pub known: BTreeMap<String, KnownEntry>,
+    /// known signatures containing `*` segments
+    pub wild: Vec<String>,
     pub total: Mutex<Obs>,
     pub sub_stats: Mutex<BTreeMap<String, Value>>,
     pub exhaustive_parts: Mutex<Vec<String>>,
@@ -141,7 +143,17 @@ pub const VERIF_ROOT: &str = "/verif";
 
 impl Ctx {
     pub fn new(prop: &str, tier: Tier, seed: u64, discover: bool) -> Ctx {
-        let known = load_known(prop);
+        // the census (tools/census.sh) wants every signature, known or not
+        let known = if std::env::var("VERIF_IGNORE_KNOWN").is_ok() {
+            BTreeMap::new()
+        } else {
+            load_known(prop)
+        };
+        let wild: Vec<String> = known
+            .keys()
+            .filter(|k| k.split('|').any(|p| p == "*"))
+            .cloned()
+            .collect();
         Ctx {
             prop: prop.to_string(),
             tier,
@@ -149,6 +161,7 @@ impl Ctx {
             discover,
             strict_replay: false,
             known,
+            wild,
             total: Mutex::new(Obs::default()),
             sub_stats: Mutex::new(BTreeMap::new()),
             exhaustive_parts: Mutex::new(Vec::new()),
@@ -182,10 +195,30 @@ impl Ctx {
     }
 
     /// Classify a violation: known -> counted; unknown -> stored (first per signature per thread).
+    /// exact entry, or an entry whose `*` segments match any segment (cross-cutting root causes)
+    pub fn known_key(&self, sig: &str) -> Option<String> {
+        if self.known.contains_key(sig) {
+            return Some(sig.to_string());
+        }
+        let parts: Vec<&str> = sig.split('|').collect();
+        for k in &self.wild {
+            let kp: Vec<&str> = k.split('|').collect();
+            if kp.len() == parts.len()
+                && kp
+                    .iter()
+                    .zip(parts.iter())
+                    .all(|(a, b)| *a == "*" || a == b)
+            {
+                return Some(k.clone());
+            }
+        }
+        None
+    }
+
     pub fn report(&self, obs: &mut Obs, sub: &str, v: Violation, case: &dyn Fn() -> Value) {
-        if self.known.contains_key(&v.sig) {
+        if let Some(k) = self.known_key(&v.sig) {
             if !obs.frozen {
-                *obs.known_hits.entry(v.sig).or_insert(0) += 1;
+                *obs.known_hits.entry(k).or_insert(0) += 1;
             }
             return;
         }
@@ -233,7 +266,9 @@ impl Ctx {
             total.merge(o);
         }
         let mut ss = self.sub_stats.lock().unwrap();
-        let e = ss.entry(sub.to_string()).or_insert(json!({"evaluations":0,"nontrivial_upper":0,"wall_s":0.0}));
+        let e = ss
+            .entry(sub.to_string())
+            .or_insert(json!({"evaluations":0,"nontrivial_upper":0,"wall_s":0.0}));
         e["evaluations"] = json!(e["evaluations"].as_u64().unwrap_or(0) + sub_evals);
         e["nontrivial_upper"] = json!(e["nontrivial_upper"].as_u64().unwrap_or(0) + sub_nt as u64);
         e["wall_s"] = json!(e["wall_s"].as_f64().unwrap_or(0.0) + t0.elapsed().as_secs_f64());
@@ -403,8 +438,15 @@ impl Ctx {
             viol_lines.push((sig.clone(), path, f.detail.clone()));
         }
         for (sig, n) in &total.known_hits {
-            let what = self.known.get(sig).map(|k| k.what_fails.clone()).unwrap_or_default();
-            println!("KNOWN-FINDING: property={} {} ({} hits) {}", self.prop, sig, n, what);
+            let what = self
+                .known
+                .get(sig)
+                .map(|k| k.what_fails.clone())
+                .unwrap_or_default();
+            println!(
+                "KNOWN-FINDING: property={} {} ({} hits) {}",
+                self.prop, sig, n, what
+            );
         }
         let mut samples: Vec<Value> = Vec::new();
         for (class, vs) in &total.samples {
@@ -449,16 +491,34 @@ impl Ctx {
         }
         println!(
             "SUMMARY property={} tier={:?} seed={} evaluations={} distinct_nontrivial={} known_signatures_hit={} unknown_signatures={} wall_s={:.1}",
-            self.prop, self.tier, self.seed, total.evals, total.nontrivial.len(), total.known_hits.len(), uniq.len(), wall
+            self.prop,
+            self.tier,
+            self.seed,
+            total.evals,
+            total.nontrivial.len(),
+            total.known_hits.len(),
+            uniq.len(),
+            wall
         );
         if self.discover {
             for (sig, _path, detail) in &viol_lines {
-                println!("DISCOVERED\t{}\t{}\t{}", self.prop, sig, detail.replace('\n', "\\n"));
+                println!(
+                    "DISCOVERED\t{}\t{}\t{}",
+                    self.prop,
+                    sig,
+                    detail.replace('\n', "\\n")
+                );
             }
             return 0;
         }
         for (sig, path, detail) in &viol_lines {
-            println!("VIOLATION property={} replay={} signature={} detail={}", self.prop, path, sig, detail.replace('\n', "\\n"));
+            println!(
+                "VIOLATION property={} replay={} signature={} detail={}",
+                self.prop,
+                path,
+                sig,
+                detail.replace('\n', "\\n")
+            );
         }
         if !viol_lines.is_empty() {
             return 1;
